@@ -8,8 +8,8 @@ RULE = ("random input assemblies (1-4 scaffolds, 1-6 contigs of 1..3000 bp, both
 TRUSTED = ["correspondence harness props/C01.py + remap_lib.py: real BuildAssembly pipeline vs Lean `remap`, compared on the multiset of output fragment intervals and error/no-error",
            "modelled not verified: Python dict/set/sort semantics as in Model/Py.lean; object identity by object ids"]
 ASSUMPTIONS = ["input contigs pairwise disjoint (WFInput): same-named input fragments do not overlap"]
-LEVEL_NOTE = 'staged proof: every stage (cut QC ⇒ tiling, trim within, fusing conserves fragments, left-overs exact, registry after lookup, outputs = store + left-overs) is a theorem; the link through resolver rounds and cutting is still being proved — until then the end-to-end claim rests on the correspondence (fragment-interval projection) + partition oracle'
-EXPLANATION = "Partition theorem over the Lean model of the pipeline (staged); tie by differential correspondence on the fragment-interval projection; oracle = per-contig tiling."
+LEVEL_NOTE = 'end-to-end theorem `remap_partitions` (+ `remap_exactly_once`, `remap_nothing_invented`) over the model for every Pretext assembly, texel size and tag set, under `WFInput` (input contig intervals pairwise different and non-overlapping per name, distinct row objects: what every parser/indexer-built assembly of a real genome satisfies; without it the real code silently drops a duplicate interval — documented); tie = differential correspondence on the fragment-interval projection; partition oracle independent of the model'
+EXPLANATION = 'End-to-end partition theorem over the Lean model of the whole pipeline; tie by differential correspondence on the fragment-interval projection; oracle = per-contig tiling.'
 
 
 def oracle(c, real):
